@@ -4,7 +4,7 @@
     of a config list; [push_ok n es t L false] says: type [t] not yet present and an entry
     of L value bytes still fits. *)
 From SplVerif Require Import Lib.Base Tlv.Model Tlv.Spec Tlv.Ops Tlv.Corollaries.
-From SplVerif Require Import ListView.Model Resolution.Account MetaList.Model MetaList.Proofs.
+From SplVerif Require Import ListView.Model Resolution.Account MetaList.Model MetaList.Proofs MetaList.Stored.
 Local Open Scope N_scope.
 
 Theorem C12_size_formula : forall k, 35 * k + 4 < USIZE_LIMIT -> ml_size_of k = Ok (12 + (4 + 35 * k)).
@@ -55,6 +55,16 @@ Theorem C12_malformed : forall data t ms, (forall u, check_data data <> Ok u) ->
   (exists e, ml_init data t ms = (data, Err e)) /\ (exists e, ml_update data t ms = (data, Err e)) /\
   (exists e, ml_reload data t = Err e).
 Proof. exact malformed_is_error. Qed.
+
+(** reading a list from ANY account bytes never panics, and every config it returns is a
+    full 35-byte ExtraAccountMeta *)
+Theorem C12_reload_any_bytes : forall data t,
+  match ml_reload data t with
+  | Ok cfgs => Forall wf_extra cfgs
+  | Err _ => True
+  | Panic => False
+  end.
+Proof. exact (ml_reload_spec (fun _ _ => None)). Qed.
 
 Example C12_nonvacuous :
   let t := [x11;x11;x11;x11;x11;x11;x11;x11] in
